@@ -1,8 +1,17 @@
 #!/bin/bash
-# usage: tools/try_seed.sh <seed-dir-name> <Cxx> [tier]  — apply a seeded regression to /repo, run one check, undo
+# usage: tools/try_seed.sh <seed-dir-name> <Cxx> [tier]  — run one check against a scratch worktree of /repo HEAD carrying a seeded
+# regression (VERIF_REPO / VERIF_BUILD point the machinery at it), so that /repo itself and checks running against it are not
+# disturbed.  Equivalent to `git -C /repo apply` + check + `git -C /repo checkout -- .`; do not run two of these at once, nor
+# together with a local check in /verif (the generated Lean files in /verif/lean are shared).
 d=/verif/seeded/$1; p=$2; t=${3:-quick}
-git -C /repo apply "$d/patch.diff" || exit 2
-VERIF_EVIDENCE=/tmp/try_seed_evidence VERIF_REPLAYS=/tmp/try_seed_replays python3 /verif/tools/vcheck.py $p --tier $t > /tmp/try_seed.$1.$p.out 2>&1; rc=$?
-git -C /repo checkout -- .
+W=/var/tmp/seedrepo
+git -C /repo worktree remove --force $W 2>/dev/null; rm -rf $W
+git -C /repo worktree add -q --detach $W HEAD || exit 2
+git -C $W apply "$d/patch.diff" || { git -C /repo worktree remove --force $W; exit 2; }
+VERIF_REPO=$W VERIF_BUILD=/var/tmp/verif-build-seed VERIF_EVIDENCE=/tmp/try_seed_evidence VERIF_REPLAYS=/tmp/try_seed_replays \
+  python3 /verif/tools/vcheck.py $p --tier $t > /tmp/try_seed.$1.$p.out 2>&1; rc=$?
+git -C /repo worktree remove --force $W; git -C /repo worktree prune
+# put the generated Lean files back to what /repo says
+python3 /verif/tools/extract.py >/dev/null 2>&1
 grep -a "VIOLATION\|^C[0-9]" /tmp/try_seed.$1.$p.out | cut -c1-220
 echo "exit=$rc"
